@@ -57,6 +57,16 @@ CHECKS = {
         "Trusted: CPython ints; zone.get_utc_offset (decided by C04-C06); day<->date bijection (C01).",
         "DESIGN.md §2 C11",
     ),
+    "C15": (
+        "exploration",
+        "differential / round-trip testing against the Python standard library datetime types (dates enumerated, rest Hypothesis-generated)",
+        "stdlib -> pyoda -> stdlib identity for every datetime.date ordinal (enumerated) and for generated times, "
+        "naive/aware datetimes and timedeltas over their full ranges; pyoda -> stdlib compared with an int reference "
+        "conversion (same day number, floor to microseconds, toward zero for durations) for values of every calendar, "
+        "and must raise exactly when the result is outside the stdlib range.",
+        "Trusted: CPython datetime; int arithmetic; day<->date bijection (C01).",
+        "DESIGN.md §2 C15",
+    ),
 }
 
 NOT_YET = {}
